@@ -109,6 +109,7 @@ type Machine struct {
 	decided   map[int]bool
 	evalMemo  map[int]sym.Val
 	walk      int
+	bufs      map[*value]*[]*sym.Term
 	orderBudget int
 	cyclicSeen bool
 	doms      map[string]*dom
@@ -163,6 +164,7 @@ func (m *Machine) resetPath(prefix []int32) {
 	m.decided = map[int]bool{}
 	m.evalMemo = map[int]sym.Val{}
 	m.walk = 0
+	m.bufs = nil
 	m.doms = map[string]*dom{}
 	m.tsMemo = map[int]sym.Val{}
 	m.entangled = map[string]bool{}
